@@ -116,3 +116,25 @@ package console
 // pattern and the device's answer, not the command) and from StripEcho, which
 // is only used for change commands.
 //vc:only[C17] github.com/hknutzen/Netspoc-Approve/go/pkg/errlog::Abort within this package in (*Conn).WaitLogin, (*Conn).WaitShort, (*Conn).waitPrompt, (*Conn).StripStdPrompt, (*Conn).StripEcho
+
+// C09: a device that stops answering ends the run. Every wait for the device is
+// bounded by the timeout the caller names - the configured timeout for command
+// prompts, the login timeout for the login dialogue and short waits - and a
+// wait that fails (timeout, connection closed) aborts: the waiting functions
+// return only after the expected text arrived.
+//vc:ghost var waitFailed bool
+//vc:func (*Conn).expectLog
+//vc:  assert[C09] at "c.con.Expect(" @waitBoundedByGivenTimeout arg2 == t
+//vc:  set waitFailed = result1 != nil
+//vc:  ensures[C09] waitFailed == (result1 != nil)
+//vc:func (*Conn).waitPrompt
+//vc:  assert[C09] at "c.expectLog(" @promptWaitBounded arg2 == c.Timeout
+//vc:  ensures[C09] @returnsOnlyAfterPrompt !waitFailed
+//vc:func (*Conn).WaitLogin
+//vc:  assert[C09] at "c.expectLog(" @loginWaitBounded arg2 == c.ShortTimeout
+//vc:  ensures[C09] @returnsOnlyAfterPrompt !waitFailed
+//vc:func (*Conn).WaitShort
+//vc:  assert[C09] at "c.expectLog(" @shortWaitBounded arg2 == c.ShortTimeout
+//vc:  ensures[C09] @returnsOnlyAfterPrompt !waitFailed
+//vc:func GetSSHConn
+//vc:  ensures[C09] @timeoutsFromConfig result1 == nil ==> result0 != nil && result0.Timeout == cfg.Timeout * 1000000000 && result0.ShortTimeout == cfg.LoginTimeout * 1000000000
